@@ -89,6 +89,10 @@ def run(ctx: Context) -> None:
     ctx.rule('R03.5', "the linear dimension is chosen by axis, else by name, else the last dimension", floor=1)
     ctx.rule('R03.6', "an automatically chosen dimension name is never one that already exists", floor=2)
     ctx.rule('R03.7', "no other refusal: wind_dimension, ravel_dimensions and splice_tuple never raise on their own; move_dimensions_to_end and get_grid_kind raise only as stated (winding arbitrary linear data always succeeds)", floor=5)
+    ctx.rule('R03.9', "helpers the flattening rests on: CF grid dimensions are read from the coordinate variables; every exit of move_dimensions_to_end has the requested dimensions last, in the requested order", floor=5)
+    from . import infra as _infra
+    _infra.cf_grid_dimensions(ctx, 'R03.9')
+    _infra.move_dimensions_exits(ctx, 'R03.9')
     from .common import adopt_foundations as _adopt
     _adopt(ctx, 'R03.8', ['topology'], floor=30)
     ctx.assume("numpy reshape in C order merges/splits trailing axes row-major; xarray transpose only permutes axes")
